@@ -140,6 +140,45 @@ def gen_docs(prop, seed, n, profile="F", replay=None, max_depth=3, features=None
             if i % 2:
                 doc["definitions"]["Zeroed"]["additionalProperties"] = False
             out.append(("zd%03d" % i, doc, ["defaults", "zero_default", "object"]))
+    if profile in ("F", "C05"):
+        # payloads that are CLOSED objects WITHOUT members (only {} is valid) in every union shape
+        empty = {"type": "object", "additionalProperties": False}
+        unions = {
+            "external": {"oneOf": [{"type": "string", "enum": ["idle"]},
+                                   {"type": "object", "required": ["reset"], "properties": {"reset": dict(empty)}, "additionalProperties": False},
+                                   {"type": "object", "required": ["set"], "properties": {"set": {"type": "integer"}}, "additionalProperties": False}]},
+            # (wrappers closed as well: a closed content under an open wrapper is the recorded region KF-C02-3 / KF-C05-2)
+            "adjacent": {"oneOf": [{"type": "object", "properties": {"kind": {"type": "string", "enum": ["cleared"]}, "data": dict(empty)},
+                                    "required": ["kind", "data"], "additionalProperties": False},
+                                   {"type": "object", "properties": {"kind": {"type": "string", "enum": ["filled"]}, "data": {"type": "integer"}},
+                                    "required": ["kind", "data"], "additionalProperties": False}]},
+            "untagged": {"oneOf": [dict(empty), {"type": "integer"}, {"type": "array", "items": {"type": "string"}}]},
+            "member": {"type": "object", "properties": {"nothing": dict(empty), "n": {"type": "integer"}}, "required": ["nothing"]},
+        }
+        for j, (nm, sch) in enumerate(unions.items()):
+            out.append(("ep%02d" % j, {"definitions": {"EmptyPayload": sch}}, ["empty_closed_payload", nm, "object"]))
+        # an overlay that only CLOSES a referenced open object (and repeats its members with permissive schemas)
+        base = {"type": "object", "properties": {"name": {"type": "string"}, "size": {"type": "integer"}}, "required": ["name"]}
+        for j, ov in enumerate([{"additionalProperties": False, "properties": {"name": {}, "size": {}}},
+                                {"type": "object", "additionalProperties": False, "properties": {"name": {}, "size": {}}},
+                                {"type": "object", "additionalProperties": False, "properties": {"name": True, "size": True}}]):
+            for order in (0, 1):
+                branches = [{"$ref": "#/definitions/Base"}, ov]
+                out.append(("co%02d" % (2 * j + order), {"definitions": {"Base": base, "Closed": {"allOf": branches[::-1] if order else branches}}},
+                            ["closing_overlay", "allof_ref", "object"]))
+    if prop == "C03":
+        # chains of $ref with sibling keywords (typify merges the siblings; a draft-07 validator ignores them, so
+        # for open objects every instance below is valid and each member is declared somewhere along the chain)
+        for j in range(4):
+            r = util.rng(seed, prop, "chain", j)
+            tys = [{"type": "string"}, {"type": "integer"}, {"type": "boolean"}]
+            defs = {"Base": {"type": "object", "properties": {"base": r.choice(tys)}}}
+            prev = "Base"
+            for lvl in range(r.randrange(2, 4)):
+                nm = "Level%d" % lvl
+                defs[nm] = {"$ref": "#/definitions/" + prev, "properties": {"own%d" % lvl: r.choice(tys)}}
+                prev = nm
+            out.append(("ch%02d" % j, {"definitions": defs}, ["ref_chain_siblings", "ref", "object"]))
     # pinned corpus documents are always included
     cdir = os.path.join(util.VERIF, "corpus", prop)
     if os.path.isdir(cdir):
